@@ -50,7 +50,7 @@ def execCmd (st : State) : Cmd → Option (State × List Ev)
     | some (pre, q, post) =>
       (match q.todo with
        | x :: rest =>
-         if enabled st.sh q.job q.regs x then
+         if enabled st.sh q.job q.regs x ∧ blocked st.sh q.job.a = false then
            some (⟨effSh st.sh q.job q.regs x, pre ++ ⟨q.job, effRg st.sh q.job q.regs x, q.done ++ [x], true, rest⟩ :: post⟩,
                  evsOf st.sh q.job q.regs x)
          else none
@@ -102,7 +102,7 @@ theorem execCmd_sound (adm : Job → Path → Prop) (st st' : State) (c : Cmd) (
           have hq : q = ⟨q.job, q.regs, q.done, true, x :: rest⟩ := by
             cases q; simp_all
           rw [hq] at hp
-          exact Step.item st pre post q.job q.regs q.done x rest hp hen
+          exact Step.item st pre post q.job q.regs q.done x rest hp hen.1 hen.2
         · cases h
       · cases h
     · cases h
